@@ -54,6 +54,8 @@ def all_inf_batch(tr):
     return None
 
 
+RESUME_CLAUSES = {"RW_Iter", "RW_Monotone", "CM_PrefixSame", "CM_Append", "CM_OnePerKey", "ME_Calls", "MP_Calls", "CallsExact",
+                  "TM_NearOne", "TM_ESS", "TM_Evidence", "NoRaise"}
 UNTRACKED_CLAUSES = {"RS_WholeCopies", "MP_Coherent", "MB_SameSlots", "SW_PropCoherent", "SW_Update", "ME_Slots", "CM_Coherent", "CM_Append",
                      "MP_Calls", "MP_Evals", "SW_Evals", "ME_Calls", "CallsExact", "PO_Rows"}
 
@@ -70,6 +72,8 @@ def attribute(ck, pid, traces, fails, extra_props=()):
                 continue  # likelihood evaluated in other processes: provenance / evaluation counts unobservable
             prop = psrun.CLAUSE_PROPERTY.get(cl)
             props = {prop} if prop else set()
+            if tr["meta"].get("resumed") and cl in RESUME_CLAUSES:
+                props.add("C08")  # a resumed run continues numbering / counting / schedule and ends with the same postconditions
             if not props:
                 counters["spec_deviations"] += 1
                 dev[cl] = dev.get(cl, 0) + 1
